@@ -35,11 +35,11 @@ let handle (x : Sexp.t) : string =
            Registry.result ~id ~status:"ok" ~key:"unsupported-op" ~detail:("panic at " ^ loc) ()
        | PPanic k when (code_variant = Fix || pre_all (List.map tokenize (split_lines (big_coqstr text))) p_empty) ->
            (* theorem C18_no_crash_outside_known says this cannot happen for the model; for the code it is a new defect *)
-           Registry.result ~id ~status:"fail" ~key:("panic-outside-known-class:" ^ loc) ~detail:(Printf.sprintf "parse_str panics (%s) on an input satisfying line_pre everywhere; model: %s" msg (kind_name k)) ()
+           Registry.result ~id ~status:"fail" ~key:("panic-outside-known-class:" ^ kind_name k) ~detail:(Printf.sprintf "parse_str panics at %s (%s) on an input satisfying line_pre everywhere; model: %s" loc msg (kind_name k)) ()
        | PPanic k ->
-           Registry.result ~id ~status:"fail" ~key:("panic:" ^ loc) ~detail:(Printf.sprintf "parse_str panics (%s); model: %s" msg (kind_name k)) ()
+           Registry.result ~id ~status:"fail" ~key:("panic:" ^ kind_name k) ~detail:(Printf.sprintf "parse_str panics at %s (%s); model: %s" loc msg (kind_name k)) ()
        | _ ->
-           Registry.result ~id ~status:"fail" ~key:("panic-unmodelled:" ^ loc) ~detail:(Printf.sprintf "parse_str panics (%s); model says %s" msg mclass) ())
+           Registry.result ~id ~status:"fail" ~key:"panic-unmodelled" ~detail:(Printf.sprintf "parse_str panics at %s (%s); model says %s" loc msg mclass) ())
   | Sexp.List [Sexp.Atom "err"] ->
       (match model with
        | PErr ->
